@@ -337,7 +337,8 @@ impl Handle {
     /// Returns false if node is not valid.
     /// Caller must ascend node if it possible.
     fn is_right_kv(&self) -> bool {
-        let len = self.node.data.len() as usize;
+        // a node holds at most 2B - 1 pairs (the length may be garbage)
+        let len = (self.node.data.len() as usize).min(2 * B - 1);
         self.idx < len
     }
 
